@@ -20,6 +20,7 @@ type specEnv struct {
 	paramOld bool            // parameter names denote entry values (ensures clauses)
 	typePkg  string          // package in which type names of the clause are resolved (home of the pred / contract)
 	depth    int
+	qdepth   int // nesting depth of quantifiers: bound variables are named by depth, so that two evaluations of one clause give identical formulas (z3 does not identify alpha-equivalent quantifiers)
 }
 
 func (e *specEnv) child() *specEnv {
@@ -475,13 +476,26 @@ func (e *specEnv) index(base, idx Term) Term {
 func (e *specEnv) quant(s *SQuant) Term {
 	x := e.x
 	ne := e.child()
+	ne.qdepth = e.qdepth + 1
 	var binds []string
 	for _, b := range s.Vars {
 		so, gt := e.resolveSort(b.Type)
-		x.bvCtr++
-		nm := fmt.Sprintf("bv!%s%d", b.Name, x.bvCtr)
+		nm := fmt.Sprintf("bv!%s!%d", b.Name, e.qdepth)
 		ne.names[b.Name] = TG(nm, so, gt)
 		binds = append(binds, "("+nm+" "+so.Name+")")
+	}
+	if s.MapOf {
+		if len(s.Vars) != 1 {
+			e.fail("mapof takes one bound variable")
+		}
+		bodyT := ne.eval(s.Body)
+		ks, _ := e.resolveSort(s.Vars[0].Type)
+		as := x.U.arraySort(ks, bodyT.Sort)
+		m := x.freshVal("mapof", as, nil)
+		bv := ne.names[s.Vars[0].Name]
+		// definitional extension: m is a fresh symbol, the axiom below has a model for every value of the body
+		x.assumes = append(x.assumes, "(forall ("+binds[0]+") (! (= (select "+m.S+" "+bv.S+") "+bodyT.S+") :pattern ((select "+m.S+" "+bv.S+"))))")
+		return m
 	}
 	body := ne.boolOf(s.Body)
 	kw := "exists"
@@ -525,6 +539,15 @@ func (e *specEnv) callSpec(s *SCall) Term {
 		ne.cur = &State{pc: e.cur.pc, vars: e.cur.vars, heap: e.old.heap, epoch: e.old.epoch}
 		ne.paramOld = true
 		return ne.eval(s.Args[0])
+	case "ghostof":
+		// ghostof("Recv.Callee", "ghost"): final value of an exported ghost of the most recent call to that callee
+		key := e.strArg(s.Args[0]) + ":" + e.strArg(s.Args[1])
+		for k, v := range x.lastGhost {
+			if k == key || strings.HasSuffix(k, "."+key) {
+				return v
+			}
+		}
+		e.fail("ghostof: no call to %s with exported ghost %s seen yet", e.strArg(s.Args[0]), e.strArg(s.Args[1]))
 	case "len":
 		v := e.eval(s.Args[0])
 		if v.Sort.Kind == KSlice {
@@ -848,4 +871,41 @@ func (x *Unit) pureResultType(key string, pkg string) types.Type {
 		}
 	}
 	return nil
+}
+
+// topExists unfolds predicate calls until an existential quantifier is at the top; it returns the quantifier and the
+// environment in which its body is to be evaluated.
+func (e *specEnv) topExists(s SExpr, depth int) (*SQuant, *specEnv) {
+	if depth > 8 {
+		return nil, nil
+	}
+	switch v := s.(type) {
+	case *SQuant:
+		if !v.Forall && !v.MapOf {
+			return v, e
+		}
+	case *SCall:
+		x := e.x
+		if pd := x.P.Pred(x.FU.Pkg.PkgPath, v.Fn); pd != nil && len(pd.Params) == len(v.Args) {
+			ne := e.child()
+			vals := make([]Term, len(v.Args))
+			for i, a := range v.Args {
+				vals[i] = e.eval(a)
+			}
+			ne.names = map[string]Term{}
+			for i, p := range pd.Params {
+				t := vals[i]
+				if t.GoT == nil {
+					if _, gt := safeResolve(e, p.Type); gt != nil {
+						t.GoT = gt
+					}
+				}
+				ne.names[p.Name] = t
+			}
+			ne.noLocals = true
+			ne.typePkg = pd.Pkg
+			return ne.topExists(pd.Body, depth+1)
+		}
+	}
+	return nil, nil
 }
